@@ -86,7 +86,9 @@ CountStmt  == SetReal([Real EXCEPT !.n = @ + 1])            \* one statement com
 Obs(s, sc, sd, f, labs, frs) ==
   [len |-> Len(s), scope |-> sc, sdepth |-> sd, fn |-> f, labels |-> labs,
    invb |-> (frs[Len(frs)].k = "vblock"), nframes |-> Len(frs)]
-Rec(op, a) == /\ hist' = Append(hist, [op |-> op, a |-> a, exp |-> Obs(stk', scope', sdepth', fn', labels', frames')])
+\* a history entry is <<op, arg, len, scope id, scope depth, function id, visible labels, in-vblock>>:
+\* the operation and the observation the specification predicts after it
+Rec(op, a) == /\ hist' = Append(hist, <<op, a, Len(stk'), scope', sdepth', fn', labels', frames'[Len(frames')].k = "vblock">>)
               /\ last' = op
 NoCtx == UNCHANGED <<scope, sdepth, nscope, fn, nfn, labels, nvar>>
 NewScope == scope' = nscope + 1 /\ nscope' = nscope + 1 /\ sdepth' = sdepth + 1
@@ -269,7 +271,7 @@ EndClosure == /\ Enabled("closure") /\ Top.k = "closure" /\ AtBase
               /\ stk' = Append(Trunc(Top), "fn") /\ UNCHANGED <<nscope, nfn, nvar>> /\ Rec("End", "closure")
 \* inline closure call: func(x int) int  (ar = 1, one result) or func() (ar = 0, no result)
 InlineStart(ar) ==
-  /\ Enabled("inline") /\ InFunc /\ ExprCtx /\ Len(frames) < MaxNest /\ ~InInit
+  /\ Enabled("inline") /\ InFunc /\ ExprCtx /\ IsBody(Real) /\ Len(frames) < MaxNest /\ ~InInit
   /\ (ar = 1 => (Len(stk) > Base /\ stk[Len(stk)] = "int"))
   /\ LET f == [Frame("inline", "") EXCEPT !.ar = ar, !.nres = ar, !.base = Len(stk) - ar] IN
        frames' = Append(frames, f)
